@@ -395,3 +395,59 @@ Proof.
 Qed.
 Lemma accepted_length ops : length (run_ops ROps ops []) = length (accepted_ops ops).
 Proof. rewrite run_ops_accepted. cbn [app]. apply map_length. Qed.
+
+(* ---------------- without affinity: the matrix clauses; the point clauses fail (known finding) ---------------- *)
+Lemma compose_is_left_to_right_butlast ms p : Forall (affine ROps) (removelast ms) ->
+  mapply_pt ROps (compose_transforms ROps ms) p = fold_left (fun q m => mapply_pt ROps m q) ms p.
+Proof. apply compose_left_to_right_butlast. Qed.
+Lemma sel_inverse_any sel : InvPairs sel -> inverse_pair (cprod (map fst sel)) (cprod (map snd (rev sel))).
+Proof.
+  induction 1 as [|[f r] l [Hrf Hfr] _ [IH1 IH2]]; cbn [map rev cprod fst snd] in *.
+  - split; apply mmul_I4_l.
+  - rewrite map_app, cprod_app. cbn [map]. rewrite cprod_one. cbn [fst snd]. split.
+    + rewrite mmul_assoc, <- (mmul_assoc (cprod (map snd (rev l)))), IH1, mmul_I4_l. exact Hrf.
+    + rewrite mmul_assoc, <- (mmul_assoc f), Hfr, mmul_I4_l. exact IH2.
+Qed.
+Lemma matrix_reverse_is_inverse_any st range : InvPairs st ->
+  inverse_pair (transform_matrix_for ROps st range false) (transform_matrix_for ROps st range true).
+Proof.
+  intros H. rewrite tmf_forward, tmf_reverse. apply sel_inverse_any.
+  destruct range as [[a b]|]; cbn [selected]; [|exact H]. unfold pyslice. apply Forall_firstn, Forall_skipn, H.
+Qed.
+Lemma op_pair_inv o fr : op_ok_inv o -> op_pair ROps o = Ok fr -> inverse_pair (fst fr) (snd fr).
+Proof.
+  destruct o as [f [r|] | s allow | x y z allow | s | dim | t | a | up look].
+  - cbn [op_ok_inv op_pair]. intros Hi H. injection H as <-. exact Hi.
+  - cbn [op_ok_inv op_pair]. intros _. unfold n0; rops. destruct (Reqb_spec (mdet ROps f) 0) as [E|E]; [discriminate|].
+    intros H. injection H as <-. split; [apply minv_l | apply minv_r]; exact E.
+  - intros _ H. eapply op_pair_ok in H; [apply H | exact I].
+  - intros _ H. eapply op_pair_ok in H; [apply H | exact I].
+  - intros _ H. eapply op_pair_ok in H; [apply H | exact I].
+  - intros _ H. eapply op_pair_ok in H; [apply H | exact I].
+  - intros _ H. eapply op_pair_ok in H; [apply H | exact I].
+  - intros Ho H. eapply op_pair_ok in H; [apply H | destruct a; exact Ho].
+  - intros _ H. eapply op_pair_ok in H; [apply H | exact I].
+Qed.
+Lemma InvPairs_reachable ops : Forall op_ok_inv ops -> InvPairs (run_ops ROps ops []).
+Proof.
+  intros H. rewrite run_ops_accepted. cbn [app]. unfold InvPairs. apply Forall_forall. intros fr Hin.
+  apply in_map_iff in Hin. destruct Hin as (o & <- & Ho). destruct (accepted_In ops o Ho) as (Hin & fr & E & ->).
+  rewrite Forall_forall in H. apply (op_pair_inv o fr (H o Hin) E).
+Qed.
+
+Lemma sequential_projective_refuted : exists ops p,
+  Forall op_ok_inv ops /\
+  call_point ROps (run_ops ROps ops []) None false false p <> fold_left (fun q o => step_action o false q) ops p.
+Proof.
+  exists [OAppend proj_witness_a (Some proj_witness_a_inv); OTranslate (V3 1 0 0)], (V3 1 0 0). split.
+  - repeat constructor; unfold proj_witness_a, proj_witness_a_inv; mat_eq; ring.
+  - cbv -[Rplus Rminus Rmult Rdiv Ropp Rinv IZR Rltb Rleb Reqb]. intros H. injection H as H _ _. lra.
+Qed.
+Lemma reverse_projective_refuted : exists ops p,
+  Forall op_ok_inv ops /\
+  call_point ROps (run_ops ROps ops []) None true false (call_point ROps (run_ops ROps ops []) None false false p) <> p.
+Proof.
+  exists [OAppend proj_witness_c (Some proj_witness_c_inv)], (V3 1 0 0). split.
+  - repeat constructor; unfold proj_witness_c, proj_witness_c_inv; mat_eq; ring.
+  - cbv -[Rplus Rminus Rmult Rdiv Ropp Rinv IZR Rltb Rleb Reqb]. intros H. injection H as H _ _. lra.
+Qed.
